@@ -12,7 +12,7 @@ from props import ctrace
 from gen import prog as genprog
 
 FEATURES = {'str', 'int', 'bool', 'enum', 'hook', 'loop', 'case', 'greedy', 'opt', 'try', 'foreach', 'if', 'wait', 'finish', 'yield',
-            'regex', 'stri', 'appendc', 'setstr', 'delete', 'idx', 'condact'}
+            'regex', 'stri', 'appendc', 'setstr', 'delete', 'idx', 'condact', 'idiom'}
 
 
 def run(tier, seed):
